@@ -92,8 +92,8 @@ Theorem bt_step u o s : wf_bt os s -> op_ok_bt os s o ->
   (forall i ow, nth_error os i = Some ow ->
      seteq (links KBelongs s' ow) (spec_owner KBelongs o (links KBelongs s ow) (values_of os o i))) /\
   (u = false -> (forall x, In x (tgt s) -> In x (tgt s')) /\ (tgt_ok os s -> tgt_ok os s')) /\
-  (* Delete and Clear keep every remaining link pointing at a record even when Unscoped *)
-  (no_values o -> tgt_ok os s -> tgt_ok os s').
+  (* every operation, scoped or Unscoped, keeps every link of the handle pointing at a record *)
+  (tgt_ok os s -> tgt_ok os s').
 Proof.
   intros W OK s'. destruct W as [ND NO EX LE ME].
   assert (MEMOS : forall ow, In ow os -> memz ow os = true) by (intros; apply memz_In; assumption).
@@ -101,11 +101,14 @@ Proof.
             let s2 := do_replace KBelongs u os vs s in
             wf_bt os s2 /\
             (forall i ow v, nth_error os i = Some ow -> nth_error vs i = Some v -> forall t, LB s2 ow t <-> In t v) /\
-            (u = false -> (forall x, In x (tgt s) -> In x (tgt s2)) /\ (tgt_ok os s -> tgt_ok os s2))).
+            (u = false -> (forall x, In x (tgt s) -> In x (tgt s2)) /\ (tgt_ok os s -> tgt_ok os s2)) /\
+            (tgt_ok os s -> tgt_ok os s2)).
   { intros vs Lv F1 s2.
     pose proof (save_loop_bt os vs (mem s) s NO Lv LE F1 EX) as H. cbn zeta in H.
     assert (E2 : exists s1, save_loop KBelongs true os vs (mem s) s = (vs, s1) /\
                rows s2 = rows s1 /\ mem s2 = vs /\ (u = false -> tgt s2 = tgt s1) /\
+               tgt s2 = (if u then delete_where (fun x => memz x (filter (fun t => negb (memz t (List.concat vs))) (List.concat (mem s)))) (tgt s1)
+                         else tgt s1) /\
                joins s1 = joins s /\ map fst (rows s1) = map fst (rows s) /\
                (forall o', ~ In o' os -> look (rows s1) o' = look (rows s) o') /\
                (forall i o v, nth_error os i = Some o -> nth_error vs i = Some v -> forall t, look (rows s1) o = Some (Some t) <-> In t v) /\
@@ -113,11 +116,21 @@ Proof.
     { unfold s2, do_replace, save_assoc. destruct (save_loop KBelongs true os vs (mem s) s) as [ms1 s1] eqn:ES. cbn [fst snd] in H.
       destruct H as [I1 [I2 [I3 [I4 [I5 I6]]]]]. subst ms1. exists s1. cbn.
       split; [reflexivity|]. split; [reflexivity|]. split; [reflexivity|]. split; [intro U; subst u; reflexivity|].
+      split; [reflexivity|].
       split; [exact I2|]. split; [exact I3|]. split; [exact I4|]. split; [exact I5 | exact I6]. }
-    destruct E2 as [s1 [_ [R2 [M2 [T2 [J1 [F2 [O2 [K2 X2]]]]]]]]].
+    destruct E2 as [s1 [_ [R2 [M2 [T2 [TG [J1 [F2 [O2 [K2 X2]]]]]]]]]].
     assert (K : forall i ow v, nth_error os i = Some ow -> nth_error vs i = Some v -> forall t, LB s2 ow t <-> In t v)
       by (intros i ow v Ho Hv t; unfold LB; rewrite R2; apply (K2 i ow v Ho Hv t)).
-    split; [|split; [exact K|]].
+    assert (TOK : tgt_ok os s2).
+    { (* the record linked by this call was just saved and is never among the deleted ones *)
+      intros ow t Hin L. apply In_nth_error in Hin. destruct Hin as [i Ho].
+      destruct (nth_error_ex vs i) as [v Hv]; [rewrite Lv; apply nth_error_Some; congruence|].
+      apply (K i ow v Ho Hv t) in L.
+      assert (T1 : In t (tgt s1)) by (apply X2; right; exists v; split; [eapply nth_error_In; eauto | exact L]).
+      rewrite TG. destruct u; [|exact T1]. apply delete_where_In. split; [exact T1|].
+      apply memz_false. intro Hf. apply filter_In in Hf. destruct Hf as [_ Hf].
+      apply Bool.negb_true_iff, memz_false in Hf. apply Hf. apply In_concat_nth. exists i, v. auto. }
+    split; [|split; [exact K|split; [|intros _; exact TOK]]].
     - constructor; auto.
       + rewrite R2, F2. exact ND.
       + intros ow Hin. rewrite R2. apply In_nth_error in Hin. destruct Hin as [i Ho].
@@ -134,14 +147,14 @@ Proof.
         apply (K i ow v Ho Hv t) in L. rewrite (T2 U). apply X2. right. exists v. split; [eapply nth_error_In; eauto | exact L]. }
   destruct o as [vs|vs|ts| |]; cbn [assoc_step do_append] in s'.
   5:{ split; [constructor; assumption|]. split; [intros i ow Ho t; reflexivity|].
-      split; [intros _; split; [intros x Hx; exact Hx | intro TK; exact TK] | intros _ TK; exact TK]. }
-  - destruct OK as [Lv F1]. destruct (REPL vs Lv F1) as [W' [K' S']]. fold s' in W', K', S'.
-    split; [exact W'|]. split; [|split; [exact S' | intros []]].
+      split; [intros _; split; [intros x Hx; exact Hx | intro TK; exact TK] | intro TK; exact TK]. }
+  - destruct OK as [Lv F1]. destruct (REPL vs Lv F1) as [W' [K' [S' TK']]]. fold s' in W', K', S', TK'.
+    split; [exact W'|]. split; [|split; [exact S' | exact TK']].
     intros i ow Ho t. rewrite links_bt by apply (wb_nd _ _ W').
     destruct (nth_error_ex vs i) as [v Hv]; [rewrite Lv; apply nth_error_Some; congruence|].
     rewrite (K' i ow v Ho Hv t). unfold values_of. cbn [op_values spec_owner single_valued]. rewrite (nth_error_nth vs i [] Hv). reflexivity.
-  - destruct OK as [Lv F1]. destruct (REPL vs Lv F1) as [W' [K' S']]. fold s' in W', K', S'.
-    split; [exact W'|]. split; [|split; [exact S' | intros []]].
+  - destruct OK as [Lv F1]. destruct (REPL vs Lv F1) as [W' [K' [S' TK']]]. fold s' in W', K', S', TK'.
+    split; [exact W'|]. split; [|split; [exact S' | exact TK']].
     intros i ow Ho t. rewrite links_bt by apply (wb_nd _ _ W').
     destruct (nth_error_ex vs i) as [v Hv]; [rewrite Lv; apply nth_error_Some; congruence|].
     rewrite (K' i ow v Ho Hv t). unfold values_of. cbn [op_values spec_owner]. rewrite (nth_error_nth vs i [] Hv). reflexivity.
@@ -160,7 +173,7 @@ Proof.
         + intros [H _]. exact H.
       - split; [discriminate | intros [H _]; discriminate]. }
     split; [|split; [|split]].
-    4:{ intros _ TK ow t Hin L. apply In_nth_error in Hin. destruct Hin as [i Ho]. apply (K i ow Ho t) in L. destruct L as [L NT].
+    4:{ intros TK ow t Hin L. apply In_nth_error in Hin. destruct Hin as [i Ho]. apply (K i ow Ho t) in L. destruct L as [L NT].
         assert (T0 : In t (tgt s)) by (eapply TK; [eapply nth_error_In; eauto | exact L]).
         assert (T : tgt s' = if u then delete_where (fun x => memz x (List.concat (mem s)) && memz x ts) (tgt s) else tgt s) by reflexivity.
         rewrite T. destruct u; [|exact T0]. apply delete_where_In. split; [exact T0|].
@@ -185,7 +198,7 @@ Proof.
     { intros i ow Ho t. unfold LB. rewrite R, look_null. destruct (look (rows s) ow); [|discriminate].
       unfold P. cbn [fst]. rewrite (MEMOS ow) by (eapply nth_error_In; eauto). discriminate. }
     split; [|split; [|split]].
-    4:{ intros _ TK ow t Hin L. apply In_nth_error in Hin. destruct Hin as [i Ho]. exfalso. exact (K i ow Ho t L). }
+    4:{ intros TK ow t Hin L. apply In_nth_error in Hin. destruct Hin as [i Ho]. exfalso. exact (K i ow Ho t L). }
     + constructor; auto.
       * rewrite R, fst_null. exact ND.
       * intros ow Hin. rewrite R, look_null. specialize (EX ow Hin). destruct (look (rows s) ow); [destruct (P (ow, o)); discriminate | congruence].
@@ -226,17 +239,16 @@ Proof.
   destruct (IH _ W' OK2 SC' (S2 TK)) as [A B]. split; [intros x Hx; apply A, S1, Hx | exact B].
 Qed.
 
-(* histories whose Unscoped operations are Delete / Clear only: every foreign key of the handle
-   keeps pointing at a record (so Count and Find stay exact, bt_find) *)
+(* EVERY history, scoped or Unscoped: every foreign key of the handle keeps pointing at a record
+   (so Count and Find stay exact, bt_find) *)
 Theorem bt_links_point_at_records : forall ops s,
   wf_bt os s -> hist_ok_g KBelongs os (op_ok_bt os) s ops ->
-  Forall (fun uo => fst uo = false \/ no_values (snd uo)) ops ->
   tgt_ok os s -> tgt_ok os (final KBelongs os s ops).
 Proof.
-  induction ops as [|[u o] ops IH]; intros s W OK SC TK; cbn [final fold_left]; [exact TK|].
-  destruct OK as [OK1 OK2]. cbn [snd] in OK1. inversion SC as [|? ? U SC']; subst. cbn in U.
-  destruct (bt_step u o s W OK1) as [W' [_ [S1 S2]]].
-  apply IH; auto. destruct U as [U|U]; [subst u; exact (proj2 (S1 eq_refl) TK) | exact (S2 U TK)].
+  induction ops as [|[u o] ops IH]; intros s W OK TK; cbn [final fold_left]; [exact TK|].
+  destruct OK as [OK1 OK2]. cbn [snd] in OK1.
+  destruct (bt_step u o s W OK1) as [W' [_ [_ S2]]].
+  apply IH; auto.
 Qed.
 
 (* Count and Find report exactly the distinct linked records *)
